@@ -44,6 +44,11 @@ use nv::{Case, CaseWriter, Obs, Outcome, Rng, errkind, guarded};
 
 #[path = "../shared/c19_multi.rs"]
 mod c19_multi;
+#[allow(dead_code)]
+#[path = "../shared/c16_adversary.rs"]
+mod c16_adversary;
+#[path = "../shared/c19_async.rs"]
+mod c19_async;
 
 // ---------------------------------------------------------------------------------------------
 // file specification
@@ -934,6 +939,7 @@ fn run(c: &Case) -> Obs {
         "unm" => c19_multi::run_unm(c),
         "via" => c19_multi::run_via(c),
         "hdr" => c19_multi::run_hdr(c),
+        "aq" => c19_async::run_aq(c),
         _ => Obs::ok("-", false),
     }
 }
@@ -1125,6 +1131,7 @@ fn generate(rng: &mut Rng, tier: &str, w: &mut CaseWriter) {
         push_file(rng, w, &spec, 15);
     }
     c19_multi::generate_multi(rng, thorough, w);
+    c19_async::generate_async(rng, thorough, w);
 }
 
 fn main() {
